@@ -149,6 +149,14 @@ func (txn *Txn) columnAt(columnName string) (*column, bool) {
 	return column, true
 }
 
+// selectNone empties the selection without shrinking it, so that a later Union can
+// still add rows (bitmap.Clear would truncate it to zero length).
+func (txn *Txn) selectNone() {
+	for i := range txn.index {
+		txn.index[i] = 0
+	}
+}
+
 // With applies a logical AND operation to the current query and the specified index.
 func (txn *Txn) With(columns ...string) *Txn {
 	txn.initialize()
@@ -158,7 +166,7 @@ func (txn *Txn) With(columns ...string) *Txn {
 				dst.And(src)
 			})
 		} else {
-			txn.index.Clear()
+			txn.selectNone()
 		}
 	}
 	return txn
@@ -249,7 +257,7 @@ func (txn *Txn) WithValue(column string, predicate func(v interface{}) bool) *Tx
 	txn.initialize()
 	c, ok := txn.columnAt(column)
 	if !ok {
-		txn.index.Clear()
+		txn.selectNone()
 		return txn
 	}
 
@@ -271,7 +279,7 @@ func (txn *Txn) WithFloat(column string, predicate func(v float64) bool) *Txn {
 	txn.initialize()
 	c, ok := txn.columnAt(column)
 	if !ok || !c.IsNumeric() {
-		txn.index.Clear()
+		txn.selectNone()
 		return txn
 	}
 
@@ -287,7 +295,7 @@ func (txn *Txn) WithInt(column string, predicate func(v int64) bool) *Txn {
 	txn.initialize()
 	c, ok := txn.columnAt(column)
 	if !ok || !c.IsNumeric() {
-		txn.index.Clear()
+		txn.selectNone()
 		return txn
 	}
 
@@ -303,7 +311,7 @@ func (txn *Txn) WithUint(column string, predicate func(v uint64) bool) *Txn {
 	txn.initialize()
 	c, ok := txn.columnAt(column)
 	if !ok || !c.IsNumeric() {
-		txn.index.Clear()
+		txn.selectNone()
 		return txn
 	}
 
@@ -319,7 +327,7 @@ func (txn *Txn) WithString(column string, predicate func(v string) bool) *Txn {
 	txn.initialize()
 	c, ok := txn.columnAt(column)
 	if !ok || !c.IsTextual() {
-		txn.index.Clear()
+		txn.selectNone()
 		return txn
 	}
 
